@@ -235,6 +235,17 @@ class Gen:
         self.put(route, "window-signed-instant", self.signed(route, ts_text=str(T0), secret=b"v1"), now=(T0 - 100) * SEC)
         self.put(route, "window-signed-instant", self.signed(route, ts_text=str(T0 + 50), secret=b"v3"), now=(T0 + 50) * SEC - TOL)
 
+    def rotation_sequences(self, route):
+        """ORDERED on one long-lived authenticator: a request stamped exactly at a window edge, then requests stamped a little earlier and
+        a little later under the secrets that are / are not valid there - the answer for one instant must not colour the next"""
+        edges = [(T0 - 1000, b"v1"), (T0, b"v2"), (T0 + 50, b"v3"), (T0 + 100, b"v2")]
+        for k, (b, s_new) in enumerate(edges):
+            for s in (s_new, b"v1", b"v2", b"v3"):
+                self.put(route, "seq-window-edge", self.signed(route, ts_text=str(b), secret=s), now=b * SEC)
+                for off in (-10, -1, 1, 10):
+                    for s2 in (s_new, b"v1", b"v2", b"v3"):
+                        self.put(route, "seq-window-near-edge", self.signed(route, ts_text=str(b + off), secret=s2), now=(b + off) * SEC)
+
     def basic_family(self, route, light=False):
         def hdr(v):
             return [("Authorization", v)]
@@ -328,6 +339,8 @@ def build_cases(rng, tier):
             g.hmac_family("/hm2")
         g.hmac_family("/fan")
     g.rotation_family("/rot")
+    g.rotation_sequences("/rot")
+    g.rotation_sequences("/rot2")
     g.rotation_family("/rot2")
     g.basic_family("/basic")
     g.forward_family()
@@ -668,6 +681,8 @@ def main(ctx, replay):
         key = (c["route"], c["tag"].split("-")[0])
         if c["tag"].startswith("replay") or c["route"] == "/rl":
             b = 0
+        elif c["tag"].startswith("seq-"):
+            b = 1 if c["route"] == "/rot" else 2          # ordered families: one runtime, generation order
         else:
             fam_rr[key] = fam_rr.get(key, 0) + 1
             b = (hash_str(key) + fam_rr[key]) % n_rt
